@@ -52,8 +52,10 @@ class _NoInline(Domain):
         return fold_truth(n)
 
 
-def find_walk(f):
-    """(while node, worklist name, seed param) or None."""
+def find_walk(f, allow_seed_only=False):
+    """(while node, worklist name, seed param) or None.  With
+    allow_seed_only a work-list loop that never pushes subclasses is found
+    too (a walk that examines the queried type only)."""
     params = set(f.params())
     seeds = {}
     for n in ast.walk(f.node):
@@ -85,6 +87,15 @@ def find_walk(f):
                                and x.attr == '__subclasses__'
                                for x in ast.walk(n))
                 if uses_sub:
+                    return n, name, seeds[name]
+                if not allow_seed_only:
+                    continue
+                pops = any(isinstance(x, ast.Call) and isinstance(
+                    x.func, ast.Attribute) and x.func.attr in (
+                        'pop', 'popleft') and isinstance(
+                            x.func.value, ast.Name) and x.func.value.id
+                    == name for x in ast.walk(n))
+                if pops:
                     return n, name, seeds[name]
     return None
 
@@ -142,6 +153,36 @@ def analyse_walk(program, rep, f, world):
     exits = w.run(f, world)
     rep.count('paths', len(exits))
     viol = {}       # rule -> (node, why, path)
+
+    def _breaks(stmts):
+        for s_ in stmts:
+            if isinstance(s_, ast.Break):
+                return s_
+            if isinstance(s_, (ast.For, ast.While, ast.FunctionDef)):
+                continue
+            for fld in ('body', 'orelse', 'finalbody'):
+                sub_ = getattr(s_, fld, None)
+                if isinstance(sub_, list) and sub_ and isinstance(
+                        sub_[0], ast.stmt):
+                    r_ = _breaks(sub_)
+                    if r_ is not None:
+                        return r_
+            for h_ in getattr(s_, 'handlers', []) or []:
+                r_ = _breaks(h_.body)
+                if r_ is not None:
+                    return r_
+        return None
+    brk = _breaks(loop.body)
+    if brk is not None:
+        viol['closure'] = (brk, 'the walk can stop (break) while types are '
+                           'still on the work list: subclasses reached later '
+                           'are never examined', [])
+    for x in ast.walk(loop):
+        if isinstance(x, ast.AugAssign) and isinstance(
+                x.target, ast.Name) and x.target.id == wl and not isinstance(
+                    x.op, ast.Add):
+            viol['closure'] = (x, 'the work list is not extended with the '
+                               'subclasses (operator is not +=)', [])
     okc = {'exact-first': 0, 'match': 0, 'closure': 0, 'single': 0, 'once': 0}
     unknown_first = 0
 
@@ -432,12 +473,20 @@ def run(program, rep, tier):
                 if isinstance(n, ast.Call) and (dotted(n.func) or ''
                                                 ).startswith('self.'):
                     g = program.resolve_method(world, n.func.attr)
-                    if g is not None and (find_walk(g) is not None or
+                    if g is not None and (find_walk(g, True) is not None or
                                           find_walk_via_generator(
                                               program, g, world) is not None):
                         target = g
         if find_walk(target) is None and find_walk_via_generator(
                 program, target, world) is None:
+            so = find_walk(target, allow_seed_only=True)
+            if so is not None:
+                rep.bad('C06.closure', target.where, so[0],
+                        'the work-list loop never pushes the subclasses of '
+                        'the type it examines: only objects of exactly the '
+                        'queried type are matched', line=so[0].lineno)
+                covered += 1
+                continue
             isub = [n for n in ast.walk(f.node) if isinstance(n, ast.Call)
                     and dotted(n.func) in ('issubclass', 'isinstance')
                     and len(n.args) == 2 and isinstance(n.args[1], ast.Name)
